@@ -47,9 +47,9 @@ ChgStmts(i) == IF ChgOK THEN {[site |-> i, assert |-> FALSE, op |-> "chg", k |->
 HostileStmts(i, o) == IF ~HostileOK THEN {}
                       ELSE {[site |-> i, assert |-> FALSE, op |-> "raise", k |-> 0, x |-> 0]}
                            \cup (IF o \in {"le", "ge"} THEN {[site |-> i, assert |-> TRUE, op |-> o \o "bot", k |-> 0, x |-> 0]} ELSE {})
-                           \cup (IF o \in {"eq", "in"} THEN {[site |-> i, assert |-> TRUE, op |-> o \o "bad", k |-> 0, x |-> 0]} ELSE {})
+                           \cup (IF o \in {"eq", "in"} THEN {[site |-> i, assert |-> TRUE, op |-> o \o sfx, k |-> 0, x |-> 0] : sfx \in {"bad", "nc"}} ELSE {})
 Stmts(ops) == UNION {OwnStmts(i, ops[i]) \cup (IF ops[i] = "none" THEN {} ELSE WrongStmts(i, ops[i]) \cup ChgStmts(i) \cup HostileStmts(i, ops[i])) : i \in DOMAIN ops}
-Special == {"none", "chg", "raise", "lebot", "gebot", "eqbad", "inbad"}
+Special == {"none", "chg", "raise", "lebot", "gebot", "eqbad", "inbad", "eqnc", "innc"}
 IsWrong(ops, s) == s.op \notin Special /\ KindOfStmtOp(s.op) # ops[s.site]
 \* a conflicting operation is only used after an own operation of the same site in the same test
 ValidTest(ops, t) == \A j \in DOMAIN t : (IsWrong(ops, t[j]) \/ t[j].op = "chg") =>
@@ -104,7 +104,7 @@ HoldsStmt(s, src) ==
 Exec(R) == {p \in (DOMAIN prog) \X (1..MaxStmts) : p[2] <= Len(R.tests[p[1]].res)}
 StmtAt(p) == prog[p[1]][p[2]]
 ResAt(R, p) == R.tests[p[1]].res[p[2]]
-OnSite(R, i) == {p \in Exec(R) : StmtAt(p).site = i /\ ResAt(R, p) \notin {"TE", "UE", "EX", "-"} /\ StmtAt(p).op \notin {"eqbad", "inbad"}}
+OnSite(R, i) == {p \in Exec(R) : StmtAt(p).site = i /\ ResAt(R, p) \notin {"TE", "UE", "EX", "-"} /\ StmtAt(p).op \notin {"eqbad", "inbad", "eqnc", "innc"}}
 \* a test that contradicts itself: one == snapshot (or one == child) compared with different values
 Contradictory(R, i) ==
    \E p, q \in OnSite(R, i) : /\ StmtAt(p).op \in {"eq", "deq"} /\ StmtAt(q).op = StmtAt(p).op
@@ -116,7 +116,7 @@ FirstOf(Q) == CHOOSE q \in Q : \A q2 \in Q : q = q2 \/ Before(q, q2)
 ExpectTE(R, p) ==
   LET s == StmtAt(p)
       Q == {q \in Exec(R) : StmtAt(q).site = s.site /\ StmtAt(q).op \notin {"none", "chg", "raise"}}
-      Kind(o) == CASE o = "lebot" -> "le" [] o = "gebot" -> "ge" [] o = "eqbad" -> "eq" [] o = "inbad" -> "in" [] OTHER -> KindOfStmtOp(o)
+      Kind(o) == CASE o = "lebot" -> "le" [] o = "gebot" -> "ge" [] o \in {"eqbad", "eqnc"} -> "eq" [] o \in {"inbad", "innc"} -> "in" [] OTHER -> KindOfStmtOp(o)
       f == StmtAt(FirstOf(Q))
       QK == {q \in Q : KindOfStmtOp(StmtAt(q).op) = "dict" /\ StmtAt(q).op # "dget" /\ StmtAt(q).k = s.k}
   IN /\ s.op \notin {"none", "chg", "raise"}
@@ -131,7 +131,7 @@ C07 == \A F \in Fs : LET R == Run(srcs, prog, F) IN
          \A t \in DOMAIN prog :
             LET wrong == \E p \in Exec(R) : /\ p[1] = t
                            /\ \/ ResAt(R, p) \in {"TE", "UE", "EX"}
-                              \/ StmtAt(p).op \in {"eqbad", "inbad"}
+                              \/ StmtAt(p).op \in {"eqbad", "inbad", "eqnc", "innc"}
                               \/ StmtAt(p).op \notin Special /\ (~srcs[StmtAt(p).site].def \/ ~HoldsStmt(StmtAt(p), srcs[StmtAt(p).site]))
                 contra == \E p \in Exec(R) : p[1] = t /\ Contradictory(R, StmtAt(p).site)
             IN /\ wrong => R.tests[t].failed
@@ -142,6 +142,7 @@ C06 == LET R == Run(srcs, prog, {}) IN
             IF ExpectTE(R, p) THEN ResAt(R, p) = "TE"
             ELSE IF s.op = "raise" THEN ResAt(R, p) = "EX"
             ELSE IF s.op \in {"eqbad", "inbad"} THEN ResAt(R, p) \in {"UE", "F"}     \* C17: rejected, never recorded
+            ELSE IF s.op \in {"eqnc", "innc"} THEN ResAt(R, p) \in {"TE", "F"}      \* C17: deepcopy refuses the value
             ELSE IF s.op = "chg"       \* C14: a changed argument is a usage error (only hand-written parts can change)
                  THEN ResAt(R, p) = (IF srcs[s.site].def /\ \E j \in DOMAIN srcs[s.site].e : ~srcs[s.site].e[j].canon
                                      THEN "UE" ELSE "-")
